@@ -60,6 +60,9 @@ pub struct Config {
     pub logger: LoggerKind,
     pub level: u8,
     pub build: Build,
+    /// hardware address of the interface the responder is bound to (None: no interface, as in
+    /// the unit tests); it may differ from the configured MAC and must not matter
+    pub iface: Option<Mac>,
 }
 
 impl Config {
@@ -95,6 +98,7 @@ impl Config {
             "logger": self.logger.as_str(),
             "level": self.level,
             "build": self.build.as_str(),
+            "iface": self.iface.as_ref().map(mac_str),
         })
     }
     pub fn from_json(v: &serde_json::Value) -> Option<Config> {
@@ -131,6 +135,17 @@ impl Config {
             } else {
                 Build::Release
             },
+            iface: v.get("iface").and_then(|x| x.as_str()).and_then(|m| {
+                let mut out = [0u8; 6];
+                let parts: Vec<&str> = m.split(':').collect();
+                if parts.len() != 6 {
+                    return None;
+                }
+                for (i, p) in parts.iter().enumerate() {
+                    out[i] = u8::from_str_radix(p, 16).ok()?;
+                }
+                Some(out)
+            }),
         })
     }
 }
@@ -316,7 +331,7 @@ impl Node {
         self.nonce = nonce.to_string();
         self.send(&format!("T {}", clock_ms))?;
         self.send(&format!(
-            "C {} {:x} {:x} {} {} {} {} {}",
+            "C {} {:x} {:x} {} {} {} {} {} {}",
             mac_str(&cfg.mac),
             cfg.key[0],
             cfg.key[1],
@@ -324,7 +339,8 @@ impl Node {
             Config::ips(&cfg.deny),
             cfg.logger.as_str(),
             cfg.level,
-            nonce
+            nonce,
+            cfg.iface.as_ref().map(mac_str).unwrap_or_else(|| "-".to_string())
         ))?;
         let (a, logs) = self.answer()?;
         if a != "C ok" {
